@@ -14,14 +14,16 @@ TOOL = 3  # sys.monitoring tool id (0-5); 3 is unassigned by convention
 
 
 class Preempt:
-    def __init__(self, kernel, functions, prob, delta, rng):
+    def __init__(self, kernel, functions, prob, delta, rng, executor_functions=()):
         self.k = kernel
-        self.codes = [f.__code__ for f in functions]
+        self.exec_codes = {f.__code__ for f in executor_functions}
+        self.codes = [f.__code__ for f in functions] + list(self.exec_codes)
         self.prob = prob
         self.delta = delta
         self.rng = rng
         self.points = 0
         self.switches = 0
+        self.actor_in_executor = 0
         self.active = False
         self.in_callback = False
 
@@ -57,10 +59,39 @@ class Preempt:
         self.points += 1
         if self.rng.random() >= self.prob:
             return
-        # run the bursts of this worker's executor thread(s) that are due within delta
         self.in_callback = True
         try:
             horizon = k.clock.now + self.delta
+            if code in self.exec_codes:
+                # we are inside the executor thread (a burst): let the ACTOR thread of the same worker handle a message that is due
+                # within delta (typically its periodic wake-up) right here, between two lines of the executor's code
+                if k.current_thread is None:
+                    return
+                due = [ev for ev in k.heap if ev[2] == "deliver" and ev[3][0] is owner and ev[0] <= horizon]
+                if not due:
+                    return
+                heads = {}
+                for ev in due:
+                    ch = ev[4] if ev[4] is not None else ("free", ev[1])
+                    if ch not in heads or ev[1] < heads[ch][1]:
+                        heads[ch] = ev
+                ev = min(heads.values(), key=lambda e: (e[0], e[1]))
+                if ev[4] is not None and any(o[2] == "deliver" and o[4] == ev[4] and o[1] < ev[1] for o in k.heap):
+                    return  # FIFO: an earlier message on the same channel is still outstanding
+                k.heap.remove(ev)
+                heapq.heapify(k.heap)
+                k.clock.advance_to(ev[0])
+                thread = k.current_thread
+                k.current_thread = None
+                try:
+                    k._deliver(*ev[3])
+                finally:
+                    k.current_thread = thread
+                self.switches += 1
+                self.actor_in_executor += 1
+                k.distinct_switch_points.add((code.co_name, line))
+                return
+            # we are inside an actor handler: run the bursts of this worker's executor thread(s) that are due within delta
             ran = False
             while True:
                 due = [ev for ev in k.heap if ev[2] == "burst" and ev[3].owner is owner and ev[0] <= horizon and not ev[3].finished]
